@@ -291,4 +291,339 @@ example : run (init [[1], [2], [1]]) [0, 1, 2, 0, 1, 0, 2, 0, 1, 1, 1, 2, 1, 1, 
 example : (after (init [[1], [2], [1]]) [0, 1, 2, 0, 1, 0, 2, 0]).waiters = [1, 2] ∧
     (after (init [[1], [2], [1]]) [0, 1, 2, 0, 1, 0, 2, 0]).woken = true := by decide
 
+/-! ### processes sharing the lock file: the statements at full strength -/
+
+/-- any number of processes with any number of tasks each, lock file already initialised with a valid
+counter in the terminal's byte: every schedule is serialised and counted and nobody fails -/
+def crossproc_serialised : Prop :=
+  ∀ (size off : Nat) (data : List Nat) (tasks : List (List (List Nat))) (sched : List (Nat × Nat)),
+    fileOk off data = true → checkX xchk0 (runX (initX size off (some data) tasks) sched) = true
+
+/-- the lock file does not exist yet (even with a single mailbox task per process): whoever opens it while
+another process is creating it gets a valid counter, and everything stays serialised and counted -/
+def creation_window_safe : Prop :=
+  ∀ (size off : Nat) (tasks : List (List (List Nat))) (sched : List (Nat × Nat)),
+    off < size → oneTask tasks = true → checkX xchk0 (runX (initX size off none tasks) sched) = true
+
+/-- every address `find_free_address` can hand out (`randint(lo, hi)`, both ends included) is accepted by
+`ParallelMailboxLock(LockFile(name, lo, hi), address)` -/
+def addr_accepted : Prop :=
+  ∀ no, addrLo ≤ no → no ≤ addrHi → lockCtorOk addrLo addrHi no = true
+
+/-! ### refutations on concrete witnesses -/
+
+/-- two tasks of process 0 share the lock object: the second `lockf` succeeds as well -/
+def sameProcSched : List (Nat × Nat) :=
+  [(0,0), (0,0), (0,0), (0,0), (0,0), (0,1), (0,1), (0,1), (0,0), (0,0), (0,0), (0,1), (0,1)]
+
+/-- both tasks are inside at once, the counter 0 is used twice, the first exit sets `counter = None` and the
+second `__aexit__` dies with TypeError still holding nothing -/
+theorem same_process_witness :
+    runX (initX 4 1 (some [0, 0, 0, 0]) [[[1], [1]]]) sameProcSched =
+      [.creat 0 false, .opened 0, .lockOk 0 0, .pread 0 0 0, .send 0 0 0, .lockOk 0 1, .pread 0 1 0, .send 0 1 0,
+       .recv 0 0, .pwrite 0 0 1, .unlock 0 0, .recv 0 1, .pwriteNone 0 1] := by decide
+
+theorem crossproc_serialised_refuted : ¬ crossproc_serialised := by
+  intro h
+  have := h 4 1 [0, 0, 0, 0] [[[1], [1]]] sameProcSched (by decide)
+  revert this; decide
+
+/-- process 0 creates the file; process 1 arrives before the zeros are written -/
+def windowSched : List (Nat × Nat) := [(0,0), (1,0), (1,0), (1,0), (1,0), (0,0), (0,0), (0,0)]
+
+/-- the opener reads 0 bytes (ValueError) and keeps the record lock: the creator then spins on `lockf` -/
+theorem creation_window_witness :
+    runX (initX 4 1 none [[[1]], [[1]]]) windowSched =
+      [.creat 0 true, .creat 1 false, .opened 1, .lockOk 1 0, .preadEmpty 1 0, .winit 0, .lockBusy 0 0, .lockBusy 0 0] := by
+  decide
+
+theorem creation_window_safe_refuted : ¬ creation_window_safe := by
+  intro h
+  have := h 4 1 [[[1]], [[1]]] windowSched (by decide) (by decide)
+  revert this; decide
+
+theorem addr_accepted_refuted : ¬ addr_accepted := by
+  intro h
+  have := h addrHi (by decide) (by decide)
+  revert this; decide
+
+/-- what does hold: every address below the upper end is accepted -/
+theorem addr_accepted_partial (no : Nat) (h1 : addrLo ≤ no) (h2 : no < addrHi) : lockCtorOk addrLo addrHi no = true := by
+  simp [lockCtorOk, h1, h2]
+
+/-! ### what does hold: one mailbox task per process, any number of processes, any schedule -/
+
+inductive XMode where
+  | out | got | inn | pend | exiting
+deriving DecidableEq
+
+def wfX : XMode → List PStep → Bool
+  | .out, [] => true
+  | .out, .lock :: r => wfX .got r
+  | .got, .pread :: r => wfX .inn r
+  | .inn, .send :: r => wfX .pend r
+  | .pend, .recv :: r => wfX .inn r
+  | .inn, .pwrite :: r => wfX .exiting r
+  | .exiting, .unlock :: r => wfX .out r
+  | _, _ => false
+
+theorem wfX_exchanges (n : Nat) (q : List PStep) : wfX .inn (exchangesX n ++ q) = wfX .inn q := by
+  induction n with
+  | zero => rfl
+  | succ n ih => simpa [exchangesX, wfX] using ih
+
+theorem wfX_prog (ns : List Nat) : wfX .out (progX ns) = true := by
+  induction ns with
+  | nil => rfl
+  | cons n ns ih =>
+    simp only [progX, criticalX, List.cons_append, wfX, List.append_assoc]
+    rw [wfX_exchanges]
+    simpa [wfX] using ih
+
+theorem wfX_out {p : List PStep} (h : wfX .out p = true) : p = [] ∨ ∃ r, p = .lock :: r ∧ wfX .got r = true := by
+  cases p with
+  | nil => exact .inl rfl
+  | cons a r => cases a <;> simp_all [wfX]
+
+theorem wfX_got {p : List PStep} (h : wfX .got p = true) : ∃ r, p = .pread :: r ∧ wfX .inn r = true := by
+  cases p with
+  | nil => simp [wfX] at h
+  | cons a r => cases a <;> simp_all [wfX]
+
+theorem wfX_inn {p : List PStep} (h : wfX .inn p = true) :
+    (∃ r, p = .send :: r ∧ wfX .pend r = true) ∨ (∃ r, p = .pwrite :: r ∧ wfX .exiting r = true) := by
+  cases p with
+  | nil => simp [wfX] at h
+  | cons a r => cases a <;> simp_all [wfX]
+
+theorem wfX_pend {p : List PStep} (h : wfX .pend p = true) : ∃ r, p = .recv :: r ∧ wfX .inn r = true := by
+  cases p with
+  | nil => simp [wfX] at h
+  | cons a r => cases a <;> simp_all [wfX]
+
+theorem wfX_exiting {p : List PStep} (h : wfX .exiting p = true) : ∃ r, p = .unlock :: r ∧ wfX .out r = true := by
+  cases p with
+  | nil => simp [wfX] at h
+  | cons a r => cases a <;> simp_all [wfX]
+
+theorem follows_le {l : Option Nat} {v : Nat} (h : follows l v = true) : v ≤ mbxMod := by
+  cases l with
+  | none => simpa [follows] using h
+  | some x =>
+    simp only [follows, beq_iff_eq] at h
+    subst h; unfold nextCounter mbxMod; omega
+
+theorem putByte_get (data : List Nat) (off v : Nat) : (putByte data off v)[off]? = some v := by
+  unfold putByte
+  split
+  · rename_i h; simp [h]
+  · rename_i h
+    have : (data ++ List.replicate (off - data.length) 0).length = off := by simp; omega
+    rw [List.getElem?_append_right (by omega)]
+    simp [this]
+
+/-- the role a process plays for the property: `none` = not the holder -/
+def roleOf (k : XChk) (m : XMode) (q : Nat) : Option XMode := if k.holder = some (q, 0) then some m else none
+
+structure PInv (P : Proc) (role : Option XMode) (last : Option Nat) : Prop where
+  others : ∀ t, t ≠ 0 → P.progs t = []
+  wf : wfX (role.getD .out) (P.progs 0) = true
+  notCreated : P.init ≠ .created
+  ready : role.isSome = true → P.init = .ready
+  busy : P.busy = if role = some .got ∨ role = some .exiting then some 0 else none
+  ctr : role = some .inn ∨ role = some .pend → ∃ c, P.ctr = some c ∧ follows last c = true
+
+theorem PInv.relast {P : Proc} {l l' : Option Nat} (h : PInv P none l) : PInv P none l' :=
+  ⟨h.others, h.wf, h.notCreated, h.ready, h.busy, by simp⟩
+
+structure XInv (s : XSt) (k : XChk) (m : XMode) : Prop where
+  present : s.file.present = true
+  procs : ∀ q, PInv (s.procs q) (roleOf k m q) k.last
+  owner : s.file.owner = k.holder.map (·.1)
+  task0 : ∀ p t, k.holder = some (p, t) → t = 0
+  mode : k.holder = none ↔ m = .out
+  pend : k.pend = true ↔ m = .pend
+  byte : ∃ v, s.file.data[s.off]? = some v ∧ (m ≠ .inn → m ≠ .pend → follows k.last v = true)
+
+theorem xinv_procs_same {s : XSt} {k : XChk} {m : XMode} {p : Nat} {P' : Proc} (h : XInv s k m)
+    (hp : PInv P' (roleOf k m p) k.last) : ∀ q, PInv (setProc s.procs p P' q) (roleOf k m q) k.last := by
+  intro q
+  by_cases hq : q = p
+  · subst hq; simpa [setProc] using hp
+  · simpa [setProc, hq] using h.procs q
+
+theorem xinv_procs_holder {s : XSt} {k k' : XChk} {m m' : XMode} {p : Nat} {P' : Proc} (h : XInv s k m)
+    (h1 : k.holder = none ∨ k.holder = some (p, 0)) (h2 : k'.holder = none ∨ k'.holder = some (p, 0))
+    (hp : PInv P' (roleOf k' m' p) k'.last) : ∀ q, PInv (setProc s.procs p P' q) (roleOf k' m' q) k'.last := by
+  intro q
+  by_cases hq : q = p
+  · subst hq; simpa [setProc] using hp
+  · have r1 : roleOf k m q = none := by rcases h1 with h1 | h1 <;> simp [roleOf, h1, Ne.symm hq]
+    have r2 : roleOf k' m' q = none := by rcases h2 with h2 | h2 <;> simp [roleOf, h2, Ne.symm hq]
+    have := h.procs q
+    rw [r1] at this
+    rw [r2]
+    simpa [setProc, hq] using this.relast
+
+theorem roleOf_holder {k : XChk} {p : Nat} (hh : k.holder = some (p, 0)) (m : XMode) :
+    roleOf k m p = some m := by simp [roleOf, hh]
+
+theorem role_none_of_init {P : Proc} {role : Option XMode} {l : Option Nat} (h : PInv P role l)
+    (hi : P.init ≠ .ready) : role = none := by
+  cases hr : role with
+  | none => rfl
+  | some x => exact absurd (h.ready (by simp [hr])) hi
+
+/-- a step of `LockFile.__init__` of a process that finds the file present -/
+theorem xinv_init_step {s : XSt} {k : XChk} {m : XMode} {p : Nat} (h : XInv s k m) (i : InitSt)
+    (hi : (s.procs p).init ≠ .ready) (hi' : i ≠ .created) :
+    XInv { s with procs := setProc s.procs p { s.procs p with init := i } } k m := by
+  have hP := h.procs p
+  have hrole := role_none_of_init hP hi
+  refine ⟨h.present, xinv_procs_same h ?_, h.owner, h.task0, h.mode, h.pend, h.byte⟩
+  rw [hrole] at hP ⊢
+  exact ⟨hP.others, hP.wf, hi', by simp, hP.busy, by simp⟩
+
+theorem stepX_inv (s : XSt) (k : XChk) (m : XMode) (pt : Nat × Nat) (h : XInv s k m) :
+    ∃ k' m', XInv (stepX s pt).1 k' m' ∧ ∀ rest, checkX k ((stepX s pt).2 ++ rest) = checkX k' rest := by
+  obtain ⟨p, t⟩ := pt
+  have hP := h.procs p
+  cases hinit : (s.procs p).init with
+  | fresh =>
+    refine ⟨k, m, ?_, fun rest => by simp [stepX, hinit, h.present, checkX, xchk1]⟩
+    simp only [stepX, hinit, h.present, ↓reduceIte]
+    exact xinv_init_step h .opening (by simp [hinit]) (by simp)
+  | created => exact absurd hinit hP.notCreated
+  | opening =>
+    refine ⟨k, m, ?_, fun rest => by simp [stepX, hinit, checkX, xchk1]⟩
+    simp only [stepX, hinit]
+    exact xinv_init_step h .ready (by simp [hinit]) (by simp)
+  | ready =>
+    cases hb : ((s.procs p).busy.isSome && (s.procs p).busy != some t) with
+    | true => exact ⟨k, m, by simpa [stepX, hinit, hb] using h, fun rest => by simp [stepX, hinit, hb]⟩
+    | false =>
+      by_cases ht : t = 0
+      case neg =>
+        have := hP.others t ht
+        exact ⟨k, m, by simpa [stepX, hinit, hb, this] using h, fun rest => by simp [stepX, hinit, hb, this]⟩
+      subst ht
+      by_cases hh : k.holder = some (p, 0)
+      · have hrole : roleOf k m p = some m := by simp [roleOf, hh]
+        rw [hrole] at hP
+        have hwf := hP.wf
+        simp only [Option.getD_some] at hwf
+        have hne : k.holder ≠ none := by simp [hh]
+        cases hm : m with
+        | out => exact absurd (h.mode.2 hm) hne
+        | got =>
+          subst hm
+          obtain ⟨r, hpr, hr⟩ := wfX_got hwf
+          obtain ⟨v, hv, hf⟩ := h.byte
+          have hf := hf (by simp) (by simp)
+          have hpend : k.pend = false := by
+            cases hk : k.pend with
+            | false => rfl
+            | true => have := h.pend.1 hk; simp at this
+          refine ⟨k, .inn, ?_, fun rest => by simp [stepX, hinit, hb, hpr, hv, checkX, xchk1, hh, follows_le hf]⟩
+          simp only [stepX, hinit, hb, hpr, hv]
+          refine ⟨h.present, xinv_procs_holder h (.inr hh) (.inr hh) ?_, h.owner, h.task0, by simp [hh],
+            by simp [hpend], ⟨v, hv, by simp⟩⟩
+          rw [roleOf_holder hh]
+          exact ⟨fun u hu => by simpa [contProg, hu] using hP.others u hu, by simpa [contProg] using hr,
+            by simp, fun _ => rfl, by simp, fun _ => ⟨v, rfl, hf⟩⟩
+        | inn =>
+          subst hm
+          obtain ⟨c, hc, hfc⟩ := hP.ctr (.inl rfl)
+          have hpend : k.pend = false := by
+            cases hk : k.pend with
+            | false => rfl
+            | true => have := h.pend.1 hk; simp at this
+          obtain ⟨v, hv, -⟩ := h.byte
+          rcases wfX_inn hwf with ⟨r, hpr, hr⟩ | ⟨r, hpr, hr⟩
+          · -- the next message leaves with the counter read under the lock
+            refine ⟨{ k with last := some c, pend := true }, .pend, ?_,
+              fun rest => by simp [stepX, hinit, hb, hpr, hc, checkX, xchk1, hh, hpend, hfc]⟩
+            simp only [stepX, hinit, hb, hpr, hc]
+            refine ⟨h.present, xinv_procs_holder h (.inr hh) (.inr hh) ?_, h.owner, h.task0, by simp [hh],
+              by simp, ⟨v, hv, by simp⟩⟩
+            rw [roleOf_holder (k := { k with last := some c, pend := true }) hh]
+            exact ⟨fun u hu => by simpa [contProg, hu] using hP.others u hu, by simpa [contProg] using hr,
+              by simp, fun _ => rfl, by simp, fun _ => ⟨nextCounter c, rfl, by simp [follows]⟩⟩
+          · -- `__aexit__`: the counter goes back into the file
+            refine ⟨k, .exiting, ?_,
+              fun rest => by simp [stepX, hinit, hb, hpr, hc, checkX, xchk1, hh, hpend]⟩
+            simp only [stepX, hinit, hb, hpr, hc]
+            refine ⟨h.present, xinv_procs_holder h (.inr hh) (.inr hh) ?_, h.owner, h.task0, by simp [hh],
+              by simp [hpend], ⟨c, putByte_get _ _ _, fun _ _ => hfc⟩⟩
+            rw [roleOf_holder hh]
+            exact ⟨fun u hu => by simpa [contProg, hu] using hP.others u hu, by simpa [contProg] using hr,
+              by simp, fun _ => rfl, by simp, by simp⟩
+        | pend =>
+          subst hm
+          obtain ⟨c, hc, hfc⟩ := hP.ctr (.inr rfl)
+          have hpend : k.pend = true := h.pend.2 rfl
+          obtain ⟨v, hv, -⟩ := h.byte
+          obtain ⟨r, hpr, hr⟩ := wfX_pend hwf
+          refine ⟨{ k with pend := false }, .inn, ?_,
+            fun rest => by simp [stepX, hinit, hb, hpr, checkX, xchk1, hh, hpend]⟩
+          simp only [stepX, hinit, hb, hpr]
+          refine ⟨h.present, xinv_procs_holder h (.inr hh) (.inr hh) ?_, h.owner, h.task0, by simp [hh],
+            by simp, ⟨v, hv, by simp⟩⟩
+          rw [roleOf_holder (k := { k with pend := false }) hh]
+          exact ⟨fun u hu => by simpa [contProg, hu] using hP.others u hu, by simpa [contProg] using hr,
+            by simp, fun _ => rfl, by simp [hP.busy], fun _ => ⟨c, hc, hfc⟩⟩
+        | exiting =>
+          subst hm
+          have hpend : k.pend = false := by
+            cases hk : k.pend with
+            | false => rfl
+            | true => have := h.pend.1 hk; simp at this
+          obtain ⟨v, hv, hf⟩ := h.byte
+          have hf := hf (by simp) (by simp)
+          obtain ⟨r, hpr, hr⟩ := wfX_exiting hwf
+          have hown : s.file.owner = some p := by rw [h.owner, hh]; rfl
+          refine ⟨{ k with holder := none }, .out, ?_,
+            fun rest => by simp [stepX, hinit, hb, hpr, checkX, xchk1, hh]⟩
+          simp only [stepX, hinit, hb, hpr, hown]
+          refine ⟨h.present, xinv_procs_holder h (.inr hh) (.inl rfl) ?_, by simp, by simp, by simp,
+            by simp [hpend], ⟨v, hv, fun _ _ => hf⟩⟩
+          have : roleOf { k with holder := none } .out p = none := by simp [roleOf]
+          rw [this]
+          exact ⟨fun u hu => by simpa [contProg, hu] using hP.others u hu, by simpa [contProg] using hr,
+            by simp, by simp, by simp, by simp⟩
+      · have hrole : roleOf k m p = none := by simp [roleOf, hh]
+        rw [hrole] at hP
+        have hwf := hP.wf
+        simp only [Option.getD_none] at hwf
+        rcases wfX_out hwf with hpr | ⟨r, hpr, hr⟩
+        · exact ⟨k, m, by simpa [stepX, hinit, hb, hpr] using h, fun rest => by simp [stepX, hinit, hb, hpr]⟩
+        · cases hk : k.holder with
+          | none =>
+            have hown : s.file.owner = none := by rw [h.owner, hk]; rfl
+            have hm : m = .out := h.mode.1 hk
+            subst hm
+            have hpend : k.pend = false := by
+              cases hkp : k.pend with
+              | false => rfl
+              | true => have := h.pend.1 hkp; simp at this
+            obtain ⟨v, hv, hf⟩ := h.byte
+            have hf := hf (by simp) (by simp)
+            refine ⟨{ k with holder := some (p, 0) }, .got, ?_,
+              fun rest => by simp [stepX, hinit, hb, hpr, hown, checkX, xchk1, hk]⟩
+            simp only [stepX, hinit, hb, hpr, hown]
+            refine ⟨h.present, xinv_procs_holder h (.inl hk) (.inr rfl) ?_, by simp, ?_, by simp,
+              by simp [hpend], ⟨v, hv, fun _ _ => hf⟩⟩
+            · rw [roleOf_holder (k := { k with holder := some (p, 0) }) rfl]
+              exact ⟨fun u hu => by simpa [contProg, hu] using hP.others u hu, by simpa [contProg] using hr,
+                by simp, fun _ => rfl, by simp, by simp⟩
+            · intro p' t' hpt; simp at hpt; exact hpt.2.symm
+          | some qt =>
+            obtain ⟨q, t'⟩ := qt
+            have ht' : t' = 0 := h.task0 q t' hk
+            subst ht'
+            have hqp : q ≠ p := fun e => hh (by rw [hk, e])
+            have hown : s.file.owner = some q := by rw [h.owner, hk]; rfl
+            exact ⟨k, m, by simpa [stepX, hinit, hb, hpr, hown, hqp] using h,
+              fun rest => by simp [stepX, hinit, hb, hpr, hown, hqp, checkX, xchk1]⟩
+
 end Ebv.C15
